@@ -108,6 +108,7 @@ const (
 	AObj    = iota // whole heap object of class Class at Ref (Path selects a sub-range)
 	AElem          // cell Idx of backing array Ref in array class Class
 	AGlobal        // package-level variable Class
+	ALocal         // non-escaping local variable cell (not part of the heap)
 )
 
 type Addr struct {
@@ -117,6 +118,7 @@ type Addr struct {
 	Idx   Term
 	Path  string     // leaf path prefix inside the root
 	T     types.Type // type of the pointee
+	Local *ssa.Alloc
 }
 
 func (a *Addr) String() string {
@@ -125,6 +127,8 @@ func (a *Addr) String() string {
 		return fmt.Sprintf("H:%s[%s]%s", a.Class, a.Ref.S, a.Path)
 	case AElem:
 		return fmt.Sprintf("A:%s[%s][%s]%s", a.Class, a.Ref.S, a.Idx.S, a.Path)
+	case ALocal:
+		return "local:" + a.Local.Comment + a.Path
 	}
 	return "G:" + a.Class + a.Path
 }
@@ -146,6 +150,9 @@ type State struct {
 	inLoop  map[*ssa.BasicBlock]*loopCtx
 	unroll  map[*ssa.BasicBlock]int
 	joins   map[string]joinFact // result term -> strings.Join provenance
+	locals    map[*ssa.Alloc][]Term // contents of non-escaping local variables
+	localRefs map[string]bool // references allocated by this activation
+	impure    []string        // reasons why the result may depend on more than the arguments
 	havocPref []havocMark       // heap-class prefixes havocked on this path (lazy symbols must not be the entry ones)
 	depth   int
 	nsteps  int
@@ -184,6 +191,7 @@ type Event struct {
 	Pc     []Term
 	Note   string
 	HeapAt map[string]Term
+	Res    SV
 }
 
 func (s *State) clone() *State {
@@ -224,6 +232,15 @@ func (s *State) clone() *State {
 	}
 	n.trace = append([]string(nil), s.trace...)
 	n.havocPref = append([]havocMark(nil), s.havocPref...)
+	n.impure = append([]string(nil), s.impure...)
+	n.locals = map[*ssa.Alloc][]Term{}
+	for k, v := range s.locals {
+		n.locals[k] = v
+	}
+	n.localRefs = map[string]bool{}
+	for k := range s.localRefs {
+		n.localRefs[k] = true
+	}
 	return &n
 }
 
@@ -341,8 +358,35 @@ func (e *Exec) heapSet(st *State, name string, t Term) {
 }
 
 // load reads the value at address a.
+// localRange: leaf index range of the sub-object at path inside local a.Local.
+func localRange(a *Addr) (int, int) {
+	root := a.Local.Type().(*types.Pointer).Elem()
+	all := flatten(root)
+	lo, hi := -1, -1
+	for i, l := range all {
+		if l.Path == a.Path || strings.HasPrefix(l.Path, a.Path+".") || strings.HasPrefix(l.Path, a.Path+"#") || a.Path == "" {
+			if lo < 0 {
+				lo = i
+			}
+			hi = i + 1
+		}
+	}
+	if lo < 0 {
+		return 0, 0
+	}
+	return lo, hi
+}
+
 func (e *Exec) load(st *State, a *Addr) SV {
 	leaves := flatten(a.T)
+	if a.Kind == ALocal {
+		lo, hi := localRange(a)
+		cur := st.locals[a.Local]
+		if hi-lo != len(leaves) || hi > len(cur) {
+			panic(fmt.Sprintf("local load: leaf mismatch at %s", a))
+		}
+		return SV{T: a.T, L: append([]Term(nil), cur[lo:hi]...)}
+	}
 	out := SV{T: a.T, L: make([]Term, len(leaves))}
 	for i, l := range leaves {
 		switch a.Kind {
@@ -363,6 +407,16 @@ func (e *Exec) store(st *State, a *Addr, v SV) {
 	leaves := flatten(a.T)
 	if len(v.L) != len(leaves) {
 		panic(fmt.Sprintf("store: leaf mismatch %s: %d vs %d (%s)", a, len(v.L), len(leaves), typeKey(a.T)))
+	}
+	if a.Kind == ALocal {
+		lo, hi := localRange(a)
+		cur := append([]Term(nil), st.locals[a.Local]...)
+		if hi-lo != len(leaves) || hi > len(cur) {
+			panic(fmt.Sprintf("local store: leaf mismatch at %s", a))
+		}
+		copy(cur[lo:hi], v.L)
+		st.locals[a.Local] = cur
+		return
 	}
 	for i, l := range leaves {
 		switch a.Kind {
@@ -402,6 +456,10 @@ func (e *Exec) freshSV(prefix string, t types.Type) SV {
 func (e *Exec) allocRef(st *State) Term {
 	r := st.alloc
 	st.alloc = e.ctx.def("alloc", Add(st.alloc, IntLit(1)))
+	if st.localRefs == nil {
+		st.localRefs = map[string]bool{}
+	}
+	st.localRefs[r.S] = true
 	return r
 }
 
